@@ -21,8 +21,8 @@ def main():
         rc, o = sh(f"cd /verif && ./check {pid} quick")
         res["check_rc"] = rc
         res["check_out"] = [l for l in o.splitlines() if l.startswith(("VIOLATION", "  (", "KNOWN", "INFRA"))][:6]
-        rc, o = sh(f"cd /repo && /venv/bin/python -m pytest -q -p no:cacheprovider {tests} 2>&1 | tail -1")
-        res["tests"] = o.strip()
+        rc, o = sh("cd /verif && /venv/bin/python -m harness.baseline")
+        res["tests"] = o.strip()[:300]
     finally:
         sh("git -C /repo checkout -- .")
     print(json.dumps(res, indent=1))
